@@ -66,7 +66,9 @@ func VerifC14AddHeader() {
 		if round == 1 {
 			name = "b"
 		}
-		in := vNondetIncoming(name, 2)
+		// raw: also entries that carry the deleted flag together with leftover value bytes
+		// (as another writer of the native schema may produce)
+		in := vNondetIncomingRaw(name, 2)
 		it.curKV = snapshot.KV{Key: []byte{'k'}, Value: in.val, TimestampNano: in.ts, Flags: in.flags}
 		r, err := it.Merge(nil)
 		zz.Assert(err == nil && r != nil, "C14/addheader/result")
@@ -90,7 +92,7 @@ func VerifC14AddHeader() {
 func VerifC14MergeWin() {
 	fv := vFormat()
 	pad := zz.NondetBool("pad")
-	in := vNondetIncoming("in", 2)
+	in := vNondetIncomingRaw("in", 2)
 	s := vNondetStored("s", 2, 1)
 	sts, _, _ := vLogical(s)
 	zz.Assume(in.ts > sts)
